@@ -9,7 +9,7 @@ Decided statically:
             curve, n*G = infinity, cofactor consistent with Hasse's bound.
  R6 CANON   interval analysis in units of p: every zero / equality test that decides a field-element condition in the Jacobian
             formulas is applied to a value whose range lies strictly inside (-p, p); formula outputs are reduced.
- R5 POLY    (thorough tier) the six formula functions equal the chord/tangent formulas as polynomial identities.
+ R5 POLY    the six formula functions equal the chord/tangent formulas as polynomial identities.
 Not decided: agreement with OpenSSL, enumeration of small groups, ECDH value equality."""
 from __future__ import annotations
 
@@ -462,6 +462,209 @@ def equality_rules(prog, chk, pid):
             chk.require(okn, P("ne-negates-eq"), nm_.qualname, "not self == other", "%s:%d" % (nm_.file, nm_.lineno), "inequality is the negation of equality", "__ne__ is not `not self == other` (%s)" % (show(v, 5)[:60] if v is not None else None))
 
 
+# ------------------------------------------------------------------------------------------------ R8 scalar multiplication
+def mul_rules(prog, chk, pid):
+    """k*P by signed-digit recoding: the structural invariants that make the loops compute k*P given that _add / _double are the group
+    law (POLY) -- table entries are the AFFINE multiples 2^j*P (they are fed to _add with Z = 1), every recoding step satisfies
+    k = 2*k' + d with the digit d matching the sign of the point added, and the NAF digits satisfy the same equation"""
+    P = lambda s: "%s.%s" % (pid, s)
+    cls = prog.cls(PJ)
+
+    def run(name):
+        fi = cls.methods[name]
+        ex = Exec(prog, policy=lambda e, f, d: False)
+        return fi, ex, ex.run(fi)
+
+    # ---- table: entry_0 = affine(P), doubler' = doubler.double()[.scale()], entry_{j+1} = affine(doubler')
+    fi, ex, res = run("_maybe_precompute")
+    where = "%s:%d" % (fi.file, fi.lineno)
+    apps = [e for e in res.events if e.kind == "mutate" and e.d.get("how") == "append"]
+    news = [e for e in res.events if e.kind == "new" and e.d["cls"].name == "PointJacobi"]
+    ok, why = len(news) == 1 and len(apps) == 2, "expected one start point and two appends (first entry, loop entries)"
+    loops = [l for l in ex.loops.values() if "doubler" in l.next]
+    if ok:
+        a = news[0].d["args"]
+        ok = len(a) >= 4 and all(unsnap(a[1 + i]).op == "sub" and "coords" in show(a[1 + i], 3) and is_const(unsnap(a[1 + i]).args[1]) and cval(unsnap(a[1 + i]).args[1]) == i for i in range(3)) and len(loops) == 1
+        why = "the doubling point does not start from the coordinates (X, Y, Z) of the point itself"
+    if ok:
+        lr = loops[0]
+        d0 = unsnap(news[0].d["result"])
+        dl = mk("loopvar", lr.id, "doubler")
+        nxt = unsnap(lr.next["doubler"])
+        mc = meth_call(nxt)
+        inner = nxt
+        if mc and mc[1] == "scale" and not mc[2]:
+            inner = unsnap(mc[0])
+        mc2 = meth_call(inner)
+        ok = unsnap(lr.init["doubler"]) is d0 and mc2 is not None and mc2[1] == "double" and not mc2[2] and unsnap(mc2[0]) is dl
+        why = "the doubling point is not updated as doubler.double() (optionally scaled)"
+
+        def affine_pair(v, of):
+            v = unsnap(v)
+            if v.op != "tuple" or len(v.args[0]) != 2:
+                return False
+            for t, nm in zip(v.args[0], ("x", "y")):
+                t = unsnap(t)
+                recv = None
+                m_ = meth_call(t)
+                if m_ and m_[1] == nm and not m_[2]:
+                    recv = unsnap(m_[0])
+                elif t.op == "call" and isinstance(t.args[0], Term) and t.args[0].op == "func" and t.args[0].args[0].endswith("PointJacobi." + nm) and len(t.args[1]) == 1:
+                    recv = unsnap(t.args[1][0])
+                if recv is None or recv is not of:
+                    return False
+            return True
+
+        if ok:
+            first = [e for e in apps if not any(f[0] == "loop" for f in e.ctx)]
+            inloop = [e for e in apps if any(f[0] == "loop" and f[1] == lr.id for f in e.ctx)]
+            ok = len(first) == 1 and len(inloop) == 1 and affine_pair(first[0].d["value"], d0) and affine_pair(inloop[0].d["value"], nxt)
+            why = "a table entry is not (doubler.x(), doubler.y()): the multiplication adds table entries with Z = 1, so they must be affine coordinates of 2^j * P"
+    chk.require(ok, P("mul-table-affine-doublings"), fi.qualname, "entry_0 = (P.x(), P.y()); doubler = doubler.double().scale(); entry_j = (doubler.x(), doubler.y())", where,
+                "the precomputed table holds the affine coordinates of P, 2P, 4P, ... (what _mul_precompute adds with Z = 1)", why)
+
+    # ---- table walk and NAF walk: digit <-> sign of the added point, recoding equation k = 2k' + d
+    def digit_arms(lr, kname, res_, ex_):
+        """for the loop variable carrying the scalar: [(digit, k' term)] from its phi tree"""
+        k = mk("loopvar", lr.id, kname)
+        out = []
+
+        def walk(t, conds):
+            t = unsnap(t)
+            if t.op == "phi":
+                walk(t.args[1], conds + [(t.args[0], True)])
+                walk(t.args[2], conds + [(t.args[0], False)])
+            else:
+                out.append((conds, t))
+        walk(lr.next[kname], [])
+        return k, out
+
+    fi, ex, res = run("_mul_precompute")
+    where = "%s:%d" % (fi.file, fi.lineno)
+    lrs = [l for l in ex.loops.values() if l.kind == "for" and "other" in l.next]
+    ok, why = len(lrs) == 1 and lrs[0].iter is not None and "precompute" in show(lrs[0].iter, 3), "no loop over the table carrying the scalar"
+    if ok:
+        lr = lrs[0]
+        k, arms = digit_arms(lr, "other", res, ex)
+        adds = [e for e in res.events if e.kind == "call" and e.d["callee"].name == "_add" and any(f[0] == "loop" and f[1] == lr.id for f in e.ctx)]
+        recs = []
+        for conds, kn in arms:
+            # which _add (if any) happens under the same conditions
+            sign = 0
+            for e in adds:
+                ec = [(unsnap(f[1]).uid, f[2]) for f in e.ctx if f[0] == "if"]
+                if ec == [(unsnap(c).uid, p_) for c, p_ in conds]:
+                    a = e.d["args"]
+                    y = unsnap(a[5])
+                    sign = -1 if (y.op == "un" and y.args[0] == "USub") else 1
+                    okz = is_const(a[6]) and cval(a[6]) == 1 and "[0]" in show(a[4], 4) and "[1]" in show(a[5], 4)
+                    if not okz:
+                        sign = 99
+            # k' must be (k - sign) // 2
+            want = {1: mk("bin", "FloorDiv", mk("bin", "Sub", k, C(1)), C(2)), -1: mk("bin", "FloorDiv", mk("bin", "Add", k, C(1)), C(2)), 0: mk("bin", "FloorDiv", k, C(2))}.get(sign)
+            recs.append((sign, kn is want, show(kn, 4)))
+        ok = len(recs) == 3 and sorted(r[0] for r in recs) == [-1, 0, 1] and all(r[1] for r in recs)
+        why = "recoding arms (digit, k' = (k - digit)//2 ?, k') are %s" % recs
+        if ok:
+            # parity conditions: digit != 0 exactly when k is odd; digit = -1 exactly when k mod 4 >= 2 (i.e. 3)
+            txt = [(" & ".join(("" if p_ else "not ") + show(c, 4) for c, p_ in conds), next(r[0] for r, a_ in zip(recs, arms) if a_[0] is conds)) for conds, _ in arms]
+            good = all(("% 2" in t_) for t_, _ in txt) and any(d == -1 and "% 4) >= 2" in t_ and "not " not in t_.split("&")[-1] for t_, d in txt)
+            ok = good
+            why = "digit selection is not: odd -> (k mod 4 >= 2 ? -1 : +1), even -> 0 (%s)" % txt
+    chk.require(ok, P("mul-table-recoding"), fi.qualname, "odd k: k mod 4 >= 2 -> add -T_j, k = (k+1)//2 | else add +T_j, k = (k-1)//2; even k: k //= 2", where,
+                "every step keeps k = 2*k' + d where d in {-1, 0, +1} is the sign with which table entry j (affine, Z = 1) is added", why)
+
+    # ---- NAF: digits d with mult = 2*mult' + d, d = mult mod 4 mapped to {-1, +1} for odd mult, 0 for even
+    fn = prog.func(E + "ellipticcurve.AbstractPoint._naf") if (E + "ellipticcurve.AbstractPoint._naf") in prog.funcs else None
+    if fn is None:
+        fn = next((f for q, f in prog.funcs.items() if q.endswith("._naf") and "ellipticcurve" in q), None)
+    ok, why = fn is not None, "_naf not found"
+    if ok:
+        exn = Exec(prog, policy=lambda e, f, d: False)
+        rn = exn.run(fn)
+        lrs = [l for l in exn.loops.values() if l.kind == "while" and "mult" in l.next]
+        ok, why = len(lrs) == 1, "no loop over the scalar"
+    if ok:
+        lr = lrs[0]
+        m = mk("loopvar", lr.id, "mult")
+        apps = [e for e in rn.events if e.kind == "mutate" and e.d.get("how") == "append"]
+        nxt = unsnap(lr.next["mult"])
+        # expected: next = phi(odd ? (mult - nd) // 2 : mult // 2), nd = phi((mult % 4) >= 2 ? (mult % 4) - 4 : mult % 4)
+        m4 = mk("bin", "Mod", m, C(4))
+        nd = mk("phi", mk("cmp", "GtE", m4, C(2)), mk("bin", "Sub", m4, C(4)), m4)
+        s_n = show(nxt, 9)
+        # two equivalent shapes: phi(odd ? (m - d)//2 : m//2)   or   phi(odd ? m - d : m) // 2
+        odd_arm = even_arm = None
+        okshape = False
+        if nxt.op == "phi" and "% 2" in show(nxt.args[0], 4):
+            okshape = True
+            oa, ea = unsnap(nxt.args[1]), unsnap(nxt.args[2])
+            if oa.op == "bin" and oa.args[0] == "FloorDiv" and is_const(oa.args[2]) and cval(oa.args[2]) == 2 and ea is mk("bin", "FloorDiv", m, C(2)):
+                odd_arm, even_arm = unsnap(oa.args[1]), m
+        elif nxt.op == "bin" and nxt.args[0] == "FloorDiv" and is_const(nxt.args[2]) and cval(nxt.args[2]) == 2:
+            inner = unsnap(nxt.args[1])
+            if inner.op == "phi" and "% 2" in show(inner.args[0], 4):
+                okshape = True
+                odd_arm, even_arm = unsnap(inner.args[1]), unsnap(inner.args[2])
+        okodd = odd_arm is not None and odd_arm.op == "bin" and odd_arm.args[0] == "Sub" and unsnap(odd_arm.args[1]) is m
+        digit = unsnap(odd_arm.args[2]) if okodd else None
+        okd = digit is not None and digit.op == "phi" and unsnap(digit.args[2]) is m4 and unsnap(digit.args[1]) is mk("bin", "Sub", m4, C(4)) and unsnap(digit.args[0]) is mk("cmp", "GtE", m4, C(2))
+        okeven = even_arm is m
+        vals = [unsnap(e.d["value"]) for e in apps]
+        okapp = len(vals) == 2 and any(v is digit for v in vals) and any(is_const(v) and cval(v) == 0 for v in vals)
+        ok = okshape and okodd and okd and okeven and okapp
+        why = "NAF step is not: odd -> d = (mult mod 4 >= 2 ? mult mod 4 - 4 : mult mod 4), append d, mult = (mult - d)//2; even -> append 0, mult //= 2 (%s)" % s_n[:160]
+    chk.require(ok, P("mul-naf-digits"), fn.qualname if fn else "_naf", "d = mult mod 4 (3 -> -1) for odd mult else 0; mult = (mult - d) // 2", "%s:%d" % (fn.file, fn.lineno) if fn else "",
+                "the NAF digits satisfy mult = 2*mult' + d at every step (least significant digit first)", why)
+    # ---- __mul__ NAF walk: most significant digit first, double then add +-P according to the digit's sign
+    fi, ex, res = run("__mul__")
+    where = "%s:%d" % (fi.file, fi.lineno)
+    lrs = [l for l in ex.loops.values() if l.kind == "for" and "X3" in l.next]
+    ok, why = len(lrs) == 1, "no double-and-add loop"
+    if ok:
+        lr = lrs[0]
+        it = unsnap(lr.iter)
+        ok = it.op == "iterview" and it.args[0] == "reversed" and "_naf" in show(it.args[1], 4)
+        why = "the digits are not walked from the most significant end (reversed(self._naf(k)))"
+    if ok:
+        def named(e, nm):
+            if e.kind == "mcall":
+                return e.d.get("name") == nm
+            if e.kind in ("call", "dyncall"):
+                return show(e.d.get("callee", e.d.get("fnterm")), 3).rstrip(">").endswith(nm)
+            return False
+
+        dbl = [e for e in res.events if named(e, "_double") and any(f[0] == "loop" and f[1] == lr.id for f in e.ctx)]
+        adds = [e for e in res.events if named(e, "_add") and any(f[0] == "loop" and f[1] == lr.id for f in e.ctx)]
+        def after_loop_ifs(e):
+            seen = False
+            n_if = 0
+            for f in e.ctx:
+                if f[0] == "loop" and f[1] == lr.id:
+                    seen = True
+                elif seen and f[0] == "if":
+                    n_if += 1
+            return n_if
+
+        ok = len(dbl) == 1 and len(adds) == 2 and all(dbl[0].uid < a.uid for a in adds) and after_loop_ifs(dbl[0]) == 0
+        why = "each step is not one unconditional doubling followed by at most one addition"
+        if ok:
+            signs = {}
+            for a in adds:
+                y = unsnap(a.d["args"][-3])
+                neg = y.op == "un" and y.args[0] == "USub"
+                if not (is_const(a.d["args"][-2]) and cval(a.d["args"][-2]) == 1):
+                    neg = None
+                conds = [(show(f[1], 4), f[2]) for f in a.ctx if f[0] == "if"]
+                signs["neg" if neg else "pos"] = conds
+            okn = "neg" in signs and any("< 0" in c and pol for c, pol in signs["neg"])
+            okp = "pos" in signs and any("> 0" in c and pol for c, pol in signs["pos"])
+            ok = okn and okp
+            why = "digit < 0 does not add -P or digit > 0 does not add +P (%s)" % signs
+    chk.require(ok, P("mul-naf-walk"), fi.qualname, "for d in reversed(naf(k)): R = 2R; d < 0: R += -P; d > 0: R += P", where,
+                "left-to-right double-and-add over the NAF digits with the sign of the digit selecting +P / -P (P scaled to Z = 1)", why)
+
+
 def poly_rules(prog, chk, pid):
     """formula functions as polynomial identities (mod-p reductions dropped: ring homomorphism Z[..] -> F_p[..])"""
     try:
@@ -561,15 +764,22 @@ def run(prog, chk, tier):
                        "[0,1); sums and small multiples by interval arithmetic; products unbounded) requires every zero test to be applied to a value strictly inside (-p, p) "
                        "and every returned coordinate to be reduced -- the 'regardless of the internal projective representation' clause. Sibling rules require the doubling "
                        "diversion in all four addition variants, a complete dispatcher and the infinity mapping. Validation and ECDH guards are located by normal form. "
-                       "In the thorough tier the six formulas are checked as polynomial identities against the affine group law. OpenSSL agreement is not decided.")
+                       "The six formulas are checked as polynomial identities against the affine group law. OpenSSL agreement is not decided.")
     const_rules(prog, chk, "C17", tier)
     canon_rules(prog, chk, "C17")
     sibling_rules(prog, chk, "C17")
     ecdh_rules(prog, chk, "C17")
     equality_rules(prog, chk, "C17")
+    mul_rules(prog, chk, "C17")
     c09.validation_chain_rules(prog, chk, "C17")
     c09.decoded_coordinates_rules(prog, chk, "C17")
-    if tier == "thorough":
+    try:
+        import sympy  # noqa: F401  (tooling venv; used only as a polynomial normaliser)
+
         poly_rules(prog, chk, "C17")
+    except ImportError:
+        if tier == "thorough":
+            raise AnalysisError("sympy is not importable: the polynomial identities cannot be checked")
+        chk.assume("sympy not importable in this interpreter: the polynomial identities of the six formulas were not checked in this run")
     chk.assume("integers handed to the public point constructors are canonical (0 <= v < p): keys loaded through VerifyingKey are range-checked, generator literals are audited")
     chk.assume("the gmpy (mpz) arms are not built in this environment and not analysed")
